@@ -51,3 +51,33 @@ func VerifCountBuffers(msg []byte, nd bool) (buffers int, ok bool) {
 	ok = pj.findStructuralIndices()
 	return <-done, ok
 }
+
+// VerifDigest feeds the plain (non-modelled) memory the two pipeline stages share, and
+// the consumer's private progress, into a state key: tape words, string buffer length,
+// current index-buffer cursor, scope depth.
+func VerifDigest(in any, add func(uint64)) {
+	pj, ok := in.(*internalParsedJson)
+	if !ok || pj == nil {
+		return
+	}
+	add(uint64(len(pj.Tape)))
+	for _, v := range pj.Tape {
+		add(v)
+	}
+	if pj.Strings != nil {
+		add(uint64(len(pj.Strings.B)))
+	}
+	add(uint64(pj.indexesChan.index))
+	add(uint64(pj.indexesChan.length))
+	add(uint64(len(pj.containingScopeOffset)))
+	add(pj.buffersOffset)
+}
+
+// VerifRingInfo reports the slot count and channel capacity of a live internal object.
+func VerifRingInfo(in any) (slots, chanCap int) {
+	pj, ok := in.(*internalParsedJson)
+	if !ok || pj == nil || pj.indexChans == nil {
+		return indexSlots, -1
+	}
+	return indexSlots, cap(pj.indexChans)
+}
